@@ -24,3 +24,5 @@ def handle (op : String) (args : List String) : Option String :=
   | _, _ => none
 
 end Driver.C02
+
+def main : IO Unit := Driver.runDriver Driver.C02.handle
